@@ -630,7 +630,7 @@ func (g *ggen) mainOp(p *Prog) MemOp {
 			a := atomicTable(0x48, "cmpxchg", "")[g.r.Intn(7)]
 			return MemOp{Fam: "cmpxchg", Name: a.name, N: a.n, Off: off, Base: g.baseSrc(true, p, a.n, off), Shape: []any{"zext", map[string]int{"i32": 4, "i64": 8}[a.typ]}, Hole: a.typ, op: []byte{0xfe, a.sub}}
 		default:
-			if p.Shared && g.r.Bool() {
+			if (p.Shared || g.r.Intn(3) == 0) && g.r.Bool() { // on a memory that is not shared a wait traps (after the bounds and alignment checks)
 				if g.r.Bool() {
 					return MemOp{Fam: "wait", Name: "memory.atomic.wait32", N: 4, Off: off, Base: g.baseSrc(true, p, 4, off), Shape: []any{"wait"}, Hole: "i32", op: []byte{0xfe, 0x01}}
 				}
